@@ -207,6 +207,133 @@ theorem readToken_stable : Stable readToken := by
     | exact readBool_stable | exact readString_stable | exact readF32_stable | exact readF64_stable
     | exact readRgb_stable
 
+/-! ### readers return a suffix of their input -/
+
+/-- `p` returns a suffix of its input and consumes at least `m` bytes -/
+def Consumes {α : Type} (p : P α) (m : Nat) : Prop :=
+  ∀ d x r, p d = .ok (x, r) → ∃ pre, d = pre ++ r ∧ m ≤ pre.length
+
+theorem Consumes.weaken {α : Type} {p : P α} {m m' : Nat} (h : Consumes p m) (hm : m' ≤ m) :
+    Consumes p m' := by
+  intro d x r hd
+  obtain ⟨pre, h1, h2⟩ := h d x r hd
+  exact ⟨pre, h1, by omega⟩
+
+theorem Consumes.bind {α β : Type} {p : P α} {k : α → P β} {m n : Nat} (hp : Consumes p m)
+    (hk : ∀ x, Consumes (k x) n) : Consumes (P.bind p k) (m + n) := by
+  intro d x r h
+  unfold P.bind at h
+  split at h
+  · simp at h
+  · rename_i y d1 hy
+    obtain ⟨pre1, h1, h2⟩ := hp d y d1 hy
+    obtain ⟨pre2, h3, h4⟩ := hk y d1 x r h
+    exact ⟨pre1 ++ pre2, by rw [h1, h3, List.append_assoc], by simp; omega⟩
+
+theorem Consumes.map {α β : Type} {p : P α} (f : α → β) {m : Nat} (hp : Consumes p m) :
+    Consumes (P.map f p) m := by
+  intro d x r h
+  unfold P.map at h
+  split at h
+  · simp at h
+  · rename_i y d1 hy
+    simp only [Except.ok.injEq, Prod.mk.injEq] at h
+    obtain ⟨pre, h1, h2⟩ := hp d y d1 hy
+    exact ⟨pre, by rw [h1, h.2], h2⟩
+
+theorem Consumes.pure {α : Type} (x : α) : Consumes (P.pure x) 0 := by
+  intro d y r h
+  simp only [P.pure, Except.ok.injEq, Prod.mk.injEq] at h
+  exact ⟨[], by simp [h.2], Nat.zero_le _⟩
+
+theorem Consumes.fail {α : Type} (e : LexErr) (m : Nat) : Consumes (P.fail e : P α) m := by
+  intro d y r h
+  simp [P.fail] at h
+
+theorem Consumes.ite {α : Type} {c : Prop} [Decidable c] {p q : P α} {m : Nat} (hp : Consumes p m)
+    (hq : Consumes q m) : Consumes (if c then p else q) m := by
+  split <;> assumption
+
+theorem consumes_split {α : Type} (n : Nat) (f : Bytes → α) :
+    Consumes (fun d => match getSplit n d with | none => .error .eof | some (h, r) => .ok (f h, r) : P α) n := by
+  intro d x r h
+  dsimp only at h
+  split at h
+  · simp at h
+  · rename_i hh rr hs
+    simp only [Except.ok.injEq, Prod.mk.injEq] at h
+    obtain ⟨h1, h2⟩ := getSplit_some hs
+    exact ⟨hh, by rw [h1, h.2], by omega⟩
+
+theorem readId_consumes : Consumes readId 2 := consumes_split 2 leNat
+theorem readU32_consumes : Consumes readU32 4 := consumes_split 4 leNat
+theorem readU64_consumes : Consumes readU64 8 := consumes_split 8 leNat
+theorem readI32_consumes : Consumes readI32 4 := consumes_split 4 (fun h => toSigned 32 (leNat h))
+theorem readI64_consumes : Consumes readI64 8 := consumes_split 8 (fun h => toSigned 64 (leNat h))
+theorem readF32_consumes : Consumes readF32 4 := consumes_split 4 id
+theorem readF64_consumes : Consumes readF64 8 := consumes_split 8 id
+
+theorem readBool_consumes : Consumes readBool 1 := by
+  intro d x r h
+  cases d with
+  | nil => simp [readBool] at h
+  | cons a t =>
+    simp only [readBool, Except.ok.injEq, Prod.mk.injEq] at h
+    exact ⟨[a], by simp [h.2], by simp⟩
+
+theorem readString_consumes : Consumes readString 2 := by
+  intro d x r h
+  unfold readString at h
+  split at h
+  · simp at h
+  · rename_i hh rr hs
+    simp only at h
+    split at h
+    · simp only [Except.ok.injEq, Prod.mk.injEq] at h
+      obtain ⟨h1, h2⟩ := getSplit_some hs
+      refine ⟨hh ++ rr.take (leNat hh), ?_, by simp; omega⟩
+      rw [h1, ← h.2, List.append_assoc, List.take_append_drop]
+    · simp at h
+
+theorem Consumes.bind0 {α β : Type} {p : P α} {k : α → P β} {m : Nat} (hp : Consumes p m)
+    (hk : ∀ x, Consumes (k x) 0) : Consumes (P.bind p k) 0 :=
+  (hp.bind hk).weaken (Nat.zero_le _)
+
+theorem readRgb_consumes : Consumes readRgb 0 := by
+  unfold readRgb
+  refine readId_consumes.bind0 fun _ => readId_consumes.bind0 fun _ => readU32_consumes.bind0 fun _ =>
+    readId_consumes.bind0 fun _ => readU32_consumes.bind0 fun _ => readId_consumes.bind0 fun _ =>
+    readU32_consumes.bind0 fun _ => readId_consumes.bind0 fun _ => ?_
+  refine Consumes.ite (Consumes.pure _) (Consumes.ite ?_ (Consumes.fail _ _))
+  exact readU32_consumes.bind0 fun _ => readId_consumes.bind0 fun _ =>
+    Consumes.ite (Consumes.pure _) (Consumes.fail _ _)
+
+theorem readToken_consumes : Consumes readToken 2 := by
+  unfold readToken
+  have h0 : ∀ {α : Type} {p : P α} {m : Nat}, Consumes p m → Consumes p 0 := fun h => h.weaken (Nat.zero_le _)
+  refine readId_consumes.bind (n := 0) fun _ => ?_
+  repeat' (first | apply Consumes.ite | apply Consumes.pure | apply Consumes.map)
+  all_goals first
+    | exact h0 readU32_consumes | exact h0 readU64_consumes | exact h0 readI32_consumes
+    | exact h0 readI64_consumes | exact h0 readBool_consumes | exact h0 readString_consumes
+    | exact h0 readF32_consumes | exact h0 readF64_consumes | exact readRgb_consumes
+
+/-- the only verdict more input can change is `Eof`; so `Eof` on a window means `Eof` on
+every prefix of the window -/
+theorem readToken_eof_prefix (w s : Bytes) (h : readToken (w ++ s) = .error .eof) :
+    readToken w = .error .eof := by
+  cases hw : readToken w with
+  | ok v =>
+    obtain ⟨t, r⟩ := v
+    rw [readToken_stable.ok w s t r hw] at h
+    simp at h
+  | error e =>
+    cases e with
+    | eof => rfl
+    | invalidRgb =>
+      rw [readToken_stable.rgb w s hw] at h
+      simp at h
+
 /-! ### codec: reading what `Token::write` wrote -/
 
 theorem readId_le (x : Nat) (rest : Bytes) (hx : x < 65536) :
